@@ -83,15 +83,15 @@ Proof.
     intros u. apply fclass_none. destruct (fclass_of (fp fw1 u)) eqn:X; auto; exfalso; [eapply N1|eapply Pm1]; eauto.
 Qed.
 
-Lemma fine_completes_l scripts started s0 v0 fsched :
-  let fw := freach scripts started s0 v0 fsched in
+Lemma fine_completes_l scripts results started s0 v0 fsched :
+  let fw := freach scripts results started s0 v0 fsched in
   foreign_unlock fw = false ->
   exists moves sched, (length moves <= 3)%nat /\
-    let fw2 := frun_all fw moves in let w := reach scripts started s0 v0 sched in
+    let fw2 := frun_all fw moves in let w := reach scripts results started s0 v0 sched in
     quiescent fw2 /\ foreign_unlock fw2 = false /\ (exists evs, trace (base fw2) = evs ++ trace (base fw)) /\
     agree w (base fw2) /\ tr_eq (trace w) (trace (base fw2)).
 Proof.
-  intros fw Hfu. destruct (fine_simulation scripts started s0 v0 fsched Hfu) as (sched & so & mo & Ps & Pm & Ha & Ht).
+  intros fw Hfu. destruct (fine_simulation scripts results started s0 v0 fsched Hfu) as (sched & so & mo & Ps & Pm & Ha & Ht).
   destruct (run_pending _ so mo Ps Pm) as (moves & Hl & Hb & Hq & Hu).
   exists moves, sched. split; [exact Hl|]. cbn zeta. fold fw in Hb, Hq, Hu |- *. rewrite Hb, Hu.
   split; [exact Hq|split; [exact Hfu|split; [apply trace_comp_grows|split; [exact Ha|exact Ht]]]].
@@ -167,8 +167,8 @@ Proof.
 Qed.
 
 Section FineCorStatements.
-Variables (scripts : tid -> list libcall) (started : tid -> bool) (s0 : bool) (v0 : Z) (fsched : list move).
-Let fw := freach scripts started s0 v0 fsched.
+Variables (scripts : tid -> list libcall) (results : tid -> Z) (started : tid -> bool) (s0 : bool) (v0 : Z) (fsched : list move).
+Let fw := freach scripts results started s0 v0 fsched.
 
 Lemma fine_flag_stable_l t mv : mv <> Run t ->
   (fclass_of (fp fw t) = KSig -> sigf (base (fstep fw mv)) = sigf (base fw)) /\
